@@ -59,7 +59,7 @@ TInitFrom(i, tr) ==
     /\ LET scn == tr.scn IN
        /\ pc = "Loop" /\ sess = scn.sess /\ recomp = scn.recomp /\ MR = scn.mr
        /\ queue = {[kind |-> "Plugin", ts |-> scn.sess[i2].arr, id |-> i2] : i2 \in 1..Len(scn.sess)}
-                  \cup {[kind |-> "Recompute", ts |-> r, id |-> 100 + r] : r \in scn.recomp}
+                  \cup ExtraEvents(scn.recomp)
        /\ chg = [i2 \in 1..MaxSess |-> IF i2 <= Len(scn.sess) THEN scn.sess[i2].init ELSE 0]
     /\ t = 0 /\ resolve = FALSE /\ lastUpd = -1 /\ batch = <<>>
     /\ occ = [s \in Stations |-> 0] /\ evsePilot = [s \in Stations |-> 0]
